@@ -17,6 +17,9 @@ import (
 
 //verif:replace (*go.sia.tech/coreutils/syncer.Peer).callRPCContext
 func stubCallRPCContext(p *Peer, ctx context.Context, r gateway.Object, timeout time.Duration) error {
+	if c11.realCall {
+		return p.callRPCContext(ctx, r, timeout)
+	}
 	c11.log = append(c11.log, "call")
 	if c11.respondPeer != nil {
 		return c11.respondPeer(p, r)
@@ -152,7 +155,7 @@ func VerifH_C11_psync_v1() {
 // parent state); a peer can still answer with a wrong block or a wrong
 // commitment, which SendCheckpoint rejects (VerifH_C11_checkpoint).
 //
-//verif:harness prop=C11 tier=quick replay=interp go=sched preempt=1 timers=2 require=synced,failed,banned bounds="1..2 headers, 1 unsynced peer (2 in the thorough tier), checkpoint honest / wrong block / transport error, block answer n-1..n+1 blocks with the last one genuine or altered, each block valid or not; ≤1 delay"
+//verif:harness prop=C11 tier=quick replay=interp go=sched preempt=1 timers=2 require=synced,failed,banned bounds="1..2 headers, 1 unsynced peer (2 in the thorough tier), checkpoint honest / wrong block / transport error, first announced block already stored or not, block answer n-1..n+1 blocks with the last one genuine or altered, each block valid or not; ≤1 delay"
 func VerifH_C11_psync_v2() {
 	s, cm, pm, p := newC11()
 	c11.validated = map[types.BlockID]bool{}
@@ -181,6 +184,13 @@ func VerifH_C11_psync_v2() {
 		blocks = append(blocks, b)
 		headers = append(headers, b.Header())
 		prev = b.ID()
+	}
+	// the node may already have the first announced block (a peer made it walk
+	// back below its own tip): what is served is validated all the same
+	if vapi.Bool("first_block_known") {
+		st := consensus.State{Network: net, Index: types.ChainIndex{Height: 11, ID: blocks[0].ID()}}
+		cm.known[blocks[0].ID()] = st
+		cm.realTip = &types.ChainIndex{Height: 12, ID: types.BlockID{0x12}}
 	}
 	honestAnswers := 0
 	c11.respondPeer = func(from *Peer, r gateway.Object) error {
